@@ -126,7 +126,28 @@ fn run_case<K: TestKey>(seed: u64, case: u64, rep: &mut Report) {
     let n_plants = rng.range(1, 6);
     let mut damaged_live = false;
     for _ in 0..n_plants {
-        match rng.below(12) {
+        match rng.below(14) {
+            12 => {
+                // lower-case hex, 64 digits in total, but split 3/1/60 or 1/3/60: not a blob path
+                let c = rng.bytes_between(1, 40);
+                let hx = hex(&b3(&c));
+                let (a, b) = if rng.chance(1, 2) { (&hx[0..3], &hx[3..4]) } else { (&hx[0..1], &hx[1..4]) };
+                let d = cas_dir.join(a).join(b);
+                std::fs::create_dir_all(&d).unwrap();
+                std::fs::write(d.join(&hx[4..]), &c).unwrap();
+                planted.push(format!("skewed-split file cas/{a}/{b}/{}", &hx[4..14]));
+            }
+            13 if !live.is_empty() => {
+                // a live blob moved to a skewed-split path: invalid file there, blob missing here
+                let (h, c) = rng.pick(&live).clone();
+                let hx = hex(&h);
+                let d = cas_dir.join(&hx[0..3]).join(&hx[3..4]);
+                std::fs::create_dir_all(&d).unwrap();
+                std::fs::write(d.join(&hx[4..]), &c).unwrap();
+                let _ = std::fs::remove_file(cas_dir.join(rel_path_of(&h)));
+                damaged_live = true;
+                planted.push(format!("live blob {} moved to a skewed-split path", &hx[..10]));
+            }
             0 | 1 | 2 => {
                 // an unreferenced canonical blob (maybe the content of a later put)
                 let c = if rng.chance(1, 2) { rng.pick(&g.contents).bytes() } else { rng.bytes_between(0, 200) };
